@@ -16,12 +16,14 @@ Exit codes: 0 property held on everything explored; 1 VIOLATION (confirmed
 against the real code); 2 machinery could not decide (never a violation).
 """
 import hashlib
+import itertools
 import json
 import os
 import re
 import shutil
 import subprocess
 import sys
+import threading
 import time
 
 VERIF = os.path.dirname(os.path.dirname(os.path.abspath(__file__)))
@@ -83,6 +85,15 @@ class Ctx:
         self.binaries = {}
         self.known = load_known(pid)
         self.exhaustive = None
+        self._ctr = itertools.count()
+        self._lock = threading.Lock()
+
+    def parallel(self, thunks, width=4):
+        """Run independent stages concurrently (each thunk calls ctx methods). Exceptions propagate."""
+        from concurrent.futures import ThreadPoolExecutor
+        with ThreadPoolExecutor(max_workers=width) as ex:
+            futs = [ex.submit(t) for t in thunks]
+            return [f.result() for f in futs]
 
     # ------------------------------------------------------------------ build
     def build(self, tags=""):
@@ -126,7 +137,7 @@ class Ctx:
     def _run_tlc(self, spec, cfgtext, workers, timeout, extra=(), javaopts=(), outfile=None, copy=()):
         """Run TLC in a private scratch dir. Returns (rc, output text or path, seconds)."""
         specdir = os.path.dirname(spec)
-        run = os.path.join(self.work, "tlc-%d" % len(os.listdir(self.work)))
+        run = os.path.join(self.work, "tlc-%d" % next(self._ctr))
         os.makedirs(run)
         # copy the spec dir and lib so TLC litter stays in scratch
         for d in (specdir, os.path.join(SPECS, "lib")):
@@ -290,7 +301,7 @@ class Ctx:
         sig = f.get("sig", "")
         if confirm and "case" in f:
             # re-execute the single case alone in a fresh process
-            one = os.path.join(self.work, "one-%d.ndjson" % len(os.listdir(self.work)))
+            one = os.path.join(self.work, "one-%d.ndjson" % next(self._ctr))
             with open(one, "w") as fh:
                 for c in f.get("prelude", []):
                     fh.write(json.dumps(c) + "\n")
@@ -313,9 +324,10 @@ class Ctx:
         consumed; otherwise it prints 'TRACE-REJECTED <line>' and TLC reports the failure."""
         spec_p = os.path.join(SPECS, spec)
         cfgtext = self._cfg(os.path.join(SPECS, cfg), subst)
-        tmp = os.path.join(os.path.dirname(trace), "trace.ndjson")
-        if os.path.abspath(trace) != os.path.abspath(tmp):
-            shutil.copy(trace, tmp)
+        tdir = os.path.join(self.work, "tr-%d" % next(self._ctr))
+        os.makedirs(tdir)
+        tmp = os.path.join(tdir, "trace.ndjson")
+        shutil.copy(trace, tmp)
         jo = ["-Dtlc2.tool.queue.IStateQueue=StateDeque"] if dfs else []
         rc, out, dt, run = self._run_tlc(spec_p, cfgtext, workers, timeout, javaopts=jo, copy=[tmp])
         gen, dist = self._stats(out)
